@@ -81,4 +81,12 @@ if __name__ == "__main__":
         traceback.print_exc()
         print(f"HARNESS-ERROR: {type(e).__name__}: {e}", file=sys.stderr)
         rc = 2
+    sys.stdout.flush()
+    sys.stderr.flush()
+    if rc == 2:
+        # a harness error may leave worker threads/processes behind: do not wait for them
+        from vk.core import kill_descendants
+
+        kill_descendants()
+        os._exit(2)
     sys.exit(rc)
